@@ -195,12 +195,18 @@ func compareItem(i int, it HistItem, got, want ItemResult) *Violation {
 
 func init() {
 	extraProps["C19"] = func(w *Worker, seed uint64, checks int) ([]string, string) {
-		return rapidRound(seed, 12, func(rt *rapid.T) {
+		msgs, trouble := rapidRound(seed, 12, func(rt *rapid.T) {
 			if w.expired() {
 				return
 			}
 			rec := newRecorder(rt)
 			items := DrawHistory(rec)
+			if w.inflight == "" {
+				w.inflight = filepath.Join(w.OutDir, fmt.Sprintf("inflight-C19-w%d-c%d.json", w.Out.Worker, w.Out.Chunk))
+			}
+			// if this process dies (a fatal error cannot be recovered) the driver re-runs the history it had in flight
+			w.writeInflight(&replayFile{Property: "C19", Engine: "history", Draws: rec.Draws, Input: items, Violation: Violation{Prop: "C19", Class: "death"},
+				Note: "the worker process died while executing this history"})
 			o := w.Out
 			var fail *Violation
 			var pendingLate []string
@@ -294,6 +300,10 @@ func init() {
 			}
 			rt.Fatalf("%s", fail.Class)
 		})
+		if w.inflight != "" {
+			os.Remove(w.inflight)
+		}
+		return msgs, trouble
 	}
 	extraReplays["history"] = func(w *Worker, rf *replayFile, path string) {
 		var items []HistItem
@@ -302,6 +312,14 @@ func init() {
 		}
 		if len(items) == 0 {
 			items = DrawHistory(&replayChooser{Draws: rf.Draws})
+		}
+		// every item alone in a fresh OS process first: an item that kills its own fresh process is not
+		// an isolation matter (and is reported as trouble, not as a violation of C19)
+		for _, it := range items {
+			if _, err := w.isolated(it); err != nil {
+				w.Out.Trouble = append(w.Out.Trouble, err.Error())
+				return
+			}
 		}
 		var pendingLate []string
 		for i, it := range items {
